@@ -47,6 +47,31 @@ theorem parse_render_declared (orc : Oracle) (incl : Bool) (decls : List Decl) (
   rw [parse_render _ _ files sps hv t ht]
   exact finish_user _ hu
 
+/-- **`Parse` called twice** on the same command line (valid vectors, no built-in option): the option variables
+    end as if all assignments of both vectors had been made in order (so what the first call stored is the second
+    call's "default": scalars keep the last value, slices keep growing), each call returns its own positionals, and
+    the response files of the first call may be named again in the second -/
+theorem parse_twice_render (orc : Oracle) (incl : Bool) (decls : List Decl) (files : Files) (es : Entries)
+    (hb : build incl decls = some es) (sps1 sps2 : List Spell)
+    (hv1 : ∀ sp ∈ sps1, sp.Valid (tableOf es) (acceptsOf orc incl decls))
+    (hv2 : ∀ sp ∈ sps2, sp.Valid (tableOf es) (acceptsOf orc incl decls)) (t1 t2 : Tail) (ht1 : t1.OK) (ht2 : t2.OK)
+    (hu1 : ∀ s ∈ sps1.flatMap Spell.sets, firstUserId ≤ s.1) (hu2 : ∀ s ∈ sps2.flatMap Spell.sets, firstUserId ≤ s.1) :
+    parseTwice orc incl decls files (sps1.flatMap Spell.args ++ t1.args) (sps2.flatMap Spell.args ++ t2.args) =
+      (.done ⟨sps1.flatMap Spell.sets ++ sps2.flatMap Spell.sets, t2.rest⟩, t1.rest) := by
+  unfold parseTwice
+  rw [hb]
+  simp only
+  rw [parse_render _ _ files sps1 hv1 t1 ht1, finish_user _ hu1]
+  simp only
+  rw [parse_render _ _ files sps2 hv2 t2 ht2]
+  simp only
+  rw [finish_user]
+  intro s hs
+  simp only [List.mem_append] at hs
+  rcases hs with h | h
+  · exact hu1 s h
+  · exact hu2 s h
+
 /-- every declared name is bound in the table to its own option (id = position of the declaration) with the right
     arity: the one-rune name under the UTF-8 encoding of the rune, the long name under itself -/
 theorem declared_names_in_table (incl : Bool) (decls : List Decl) (es : Entries) (h : build incl decls = some es)
@@ -178,6 +203,17 @@ theorem response_inline (tbl : Table) (acc : Accepts) (files : Files) (pre post 
     (h : run tbl acc files seen a .look (pre ++ (64 :: f) :: post) = .ok r) :
     run tbl acc files seen a .look (pre ++ (ins ++ post)) = .ok r :=
   run_response_inline tbl acc files pre post ins f seen seen₁ a a₁ r hb hf h
+
+/-- the response files of the model are lists of lines; a file on disk is bytes read by `bufio.Scanner`
+    (`Cmd.linesOf`): LF-terminated lines are read back as exactly these lines when no line contains LF or ends in CR -/
+theorem response_file_bytes_lf (ls : List Str) (h : ∀ l ∈ ls, 10 ∉ l ∧ l.getLast? ≠ some 13) :
+    linesOf (ls.flatMap (fun l => l ++ [10])) = ls :=
+  linesOf_lf ls h
+
+/-- … and CRLF-terminated lines always (any line without LF, also one that itself ends in CR) -/
+theorem response_file_bytes_crlf (ls : List Str) (h : ∀ l ∈ ls, 10 ∉ l) :
+    linesOf (ls.flatMap (fun l => l ++ [13, 10])) = ls :=
+  linesOf_crlf ls h
 
 /-- loading a path twice is fatal (the recursion guard), also when the second reference is not recursive -/
 theorem repeated_path_fatal (tbl : Table) (acc : Accepts) (files : Files) (seen : List Str) (a : PAcc) (f : Str)
